@@ -196,6 +196,37 @@ def r03_2(run, model):
                 run.ob("R03.2", f"Typer::unify|{v} component result tested", tested or tail, site(UNI, c["sp"]),
                        "recursive unify result is tested with `if !… { return false }`" if tested else "recursive unify result is ignored",
                        witness=f"a mismatch inside a {v} is reported nowhere / unify returns true")
+    # the occurs test compares union-find keys, so it is only as good as the normalisation of what it is handed: the two types unify takes
+    # apart come out of a traversal that resolves variables under every type former (a head-only resolution leaves bound variables inside)
+    struct_trav = set()
+    cvs0 = T.child_variants(model)
+    for tt in T.discover(model):
+        if tt.fn.file == UNI and tt.kind == "single" and not tt.catch:
+            rec_vars = {v for v, lst in tt.covered.items() if v in cvs0 and any(any(True for _ in S.calls(a["body"], tt.fn.name)) for a, _ in lst)}
+            if rec_vars >= set(cvs0):
+                struct_trav.add(tt.fn.name)
+    lets = {}
+    for l in S.find(f.body, "Local"):
+        if l.get("init") is not None:
+            for b_ in S.pat_bindings(l["pat"]):
+                lets.setdefault(b_, []).append(l["init"])
+    scr = t.match["scrut"]
+    for i, el in enumerate(scr["elems"]):
+        seen, work, fnames = set(), [el], set()
+        while work:
+            x = work.pop()
+            for c in S.walk(x):
+                if c["k"] in ("Call", "MethodCall"):
+                    fnames.add(S.callee_name(c) if c["k"] == "Call" else c["method"])
+            for nm in S.idents(x):
+                if nm in lets and nm not in seen:
+                    seen.add(nm)
+                    work.extend(lets[nm])
+        ok = bool(fnames & struct_trav)
+        run.ob("R03.2", f"Typer::unify|operand {i + 1} is normalised under every type former", ok, site(UNI, el["sp"]),
+               f"the operand is produced by {sorted(fnames) or 'no call'}; traversals of unify.rs that recurse under every former: {sorted(struct_trav)}",
+               witness="|f, g| { let h = if true { f } else { g }; f(g) }: with a head-only resolution the variable bound through the alias is not seen "
+                       "by occurs, t := (t) -> r is built and norm recurses until the stack overflows")
     if t.catch:
         b = S.norm_ws(run.facts.text(UNI, t.catch[0]["body"]["sp"]))
         ok = S.pushes_error(model, run.facts, UNI, t.catch[0]["body"]) and "returnfalse" in b
